@@ -60,6 +60,20 @@ class Prov:
             return "%s[%s]" % (self.p(node.value, env), self.p(node.slice, env))
         if isinstance(node, ast.List):
             return "[" + ", ".join(self.p(e, env) for e in node.elts) + "]"
+        if isinstance(node, ast.ListComp) and len(node.generators) == 1 and not node.generators[0].ifs \
+                and isinstance(node.generators[0].target, ast.Name):
+            g = node.generators[0]
+            try:
+                seq = ast.literal_eval(g.iter)
+            except Exception:
+                seq = None
+            if isinstance(seq, (list, tuple)):
+                items = []
+                for v in seq:
+                    e2 = dict(env)
+                    e2[g.target.id] = repr(v)
+                    items.append(self.p(node.elt, e2))
+                return "[" + ", ".join(items) + "]"
         if isinstance(node, ast.Tuple):
             return "(" + ", ".join(self.p(e, env) for e in node.elts) + ")"
         if isinstance(node, ast.UnaryOp) and isinstance(node.op, ast.USub):
@@ -67,6 +81,16 @@ class Prov:
         if isinstance(node, ast.BinOp):
             if isinstance(node.op, ast.Div) and self.is_8pi2(node.right):
                 return "B2U(%s)" % self.p(node.left, env)
+            if isinstance(node.op, ast.Add):
+                a_, b_ = self.p(node.left, env), self.p(node.right, env)
+                if len(a_) >= 2 and len(b_) >= 2 and a_[0] == a_[-1] == "'" and b_[0] == b_[-1] == "'":
+                    return repr(ast.literal_eval(a_) + ast.literal_eval(b_))
+            if isinstance(node.op, ast.Mod):
+                a_, b_ = self.p(node.left, env), self.p(node.right, env)
+                try:
+                    return repr(ast.literal_eval(a_) % ast.literal_eval(b_))
+                except Exception:
+                    pass
             op = {ast.Add: "+", ast.Sub: "-", ast.Mult: "*", ast.Div: "/"}.get(type(node.op), "?")
             return "(%s %s %s)" % (self.p(node.left, env), op, self.p(node.right, env))
         if isinstance(node, ast.Call):
